@@ -78,13 +78,12 @@ def run(ctx) -> None:
         for f in fs:
             env = E.env(f)
             for n in walk_local(f.node):
-                if isinstance(n, ast.Assign) and any(isinstance(t, ast.Name) and t.id == "wait_for_versions" for t in n.targets):
+                # a dict built by iterating <node>.wait_for and asking a state for versions
+                if isinstance(n, ast.Assign) and isinstance(n.value, ast.DictComp) and isinstance(n.value.generators[0].iter, ast.Attribute) and n.value.generators[0].iter.attr == "wait_for":
                     found = True
                     calls = [c for c in ast.walk(n.value) if isinstance(c, ast.Call) and isinstance(c.func, ast.Attribute) and c.func.attr == "get_version"]
-                    ok = bool(calls) and all(all(r in (snap[0], f"free:{snap[0]}") and p == () for r, p in E.paths(c.func.value, env)) and E.paths(c.func.value, env) for c in calls) and "node.wait_for" in src(n.value)
+                    ok = bool(calls) and all(E.paths(c.func.value, env) and all(r in (snap[0], f"free:{snap[0]}") and p == () for r, p in E.paths(c.func.value, env)) for c in calls)
                     rep.add("C17.R2", f"{f.qname}:wait_for_versions", ok, f"{f.module.rel}:{n.lineno}", "consumed wait_for versions come from the pre-step snapshot" if ok else "consumed wait_for versions are not read from the pre-step snapshot: a signal produced in the same step would be marked consumed and the waiter would miss it")
-        if not found:
-            rep.bad("C17.R2", f"{ss.qname}:wait_for_versions", ss.loc(), "wait_for versions are no longer recorded")
         # and they are stored into the execution record
         stored = any(isinstance(c, ast.Call) and "NodeExecution" in src(c.func) and any(k.arg == "wait_for_versions" for k in c.keywords) for f in fs for c in walk_local(f.node) if isinstance(c, ast.Call))
         if not stored:
